@@ -33,7 +33,8 @@ RMaxTo(x, i, Ep, cp, b) ==
 RunningMax(x, Ep, cp, b) == [i \in 1..Len(x) |-> RMaxTo(x, i, Ep, cp, b)]
 
 F(name, x, Ep, cp, b) ==
-  CASE name = "pointwise"     -> Pointwise(x, Ep, cp, b)
+  CASE name \in {"pointwise", "pointwise_kwonly", "pointwise_memo"}
+                              -> Pointwise(x, Ep, cp, b)
     [] name = "prefix_sum"    -> PrefixSum(x, Ep, cp, b)
     [] name = "index_weighted" -> IndexWeighted(x, Ep, cp, b)
     [] name = "running_max"   -> RunningMax(x, Ep, cp, b)
